@@ -31,6 +31,10 @@ type World struct {
 	noMerge       bool
 	trace         bool
 	branchTimeout int
+	witnessEvery  int
+	witnessMax    int
+	witnessN      map[string]int
+	seed          int
 }
 
 // packages whose functions are executed from SSA when no model is registered
@@ -131,6 +135,31 @@ func (w *World) runPath(sol *Solver, fn *ssa.Function, prefix []int) (res *PathR
 	}()
 	e.callFn(fn, nil)
 	res.Status = "ok"
+	// path witness (translator validation): for a seeded sample of completed paths on which no assertion was
+	// violated, a model of the path condition is written out; replayed natively, every assertion must hold there
+	// too — otherwise a model of the environment hides a behaviour of the real code
+	if w.witnessEvery > 0 && cexDir != "" && len(res.Reached) > 0 {
+		violated := false
+		for _, a := range res.Asserts {
+			if a.Result != "proved" && a.Result != "trivial" {
+				violated = true
+			}
+		}
+		h := fnv(fmt.Sprint(e.decisions)) + uint64(w.seed)
+		if !violated && h%uint64(w.witnessEvery) == 0 {
+			if cex := e.buildCex("witness", nil); cex != nil {
+				w.mu.Lock()
+				n := w.witnessN[fn.Name()]
+				w.witnessN[fn.Name()] = n + 1
+				w.mu.Unlock()
+				if n < w.witnessMax {
+					os.MkdirAll(cexDir, 0o755)
+					b, _ := json.MarshalIndent(cex, "", " ")
+					os.WriteFile(filepath.Join(cexDir, fmt.Sprintf("witness-%s-%d.json", fn.Name(), n+1)), b, 0o644)
+				}
+			}
+		}
+	}
 	return res
 }
 
@@ -272,6 +301,9 @@ func main() {
 	maxCex := flag.Int("maxcex", 3, "counterexample files per harness")
 	branchTO := flag.Int("branch-timeout", 4000, "solver budget (ms) for branch-feasibility queries; unknown keeps the branch")
 	known := flag.String("known", "", "known-finding modes: id=exclude|only, comma separated")
+	witnessEvery := flag.Int("witness-every", 0, "write a path witness for about one in N completed paths (0 = none)")
+	witnessMax := flag.Int("witness-max", 2, "path witnesses per harness")
+	seed := flag.Int("seed", 0, "seed for the witness sample")
 	flag.Parse()
 
 	t0 := time.Now()
@@ -316,7 +348,8 @@ func main() {
 		os.Exit(2)
 	}
 	prog, spkgs := ssautil.AllPackages(pkgs, ssa.InstantiateGenerics)
-	w := &World{prog: prog, follow: followPrefixes, maxSteps: 3000000, solver: *solver, timeout: *timeout, tier: *tier, maxCex: *maxCex, branchTimeout: *branchTO}
+	w := &World{prog: prog, follow: followPrefixes, maxSteps: 3000000, solver: *solver, timeout: *timeout, tier: *tier, maxCex: *maxCex, branchTimeout: *branchTO,
+		witnessEvery: *witnessEvery, witnessMax: *witnessMax, witnessN: map[string]int{}, seed: *seed}
 	for _, kv := range strings.Split(*known, ",") {
 		if i := strings.Index(kv, "="); i > 0 {
 			knownModes[kv[:i]] = kv[i+1:]
